@@ -43,7 +43,7 @@ AU = [True, False]
 TR = [None, 'polling', 'websocket']
 CK = ['none', 'str', 'dict', 'flagT', 'flagF', 'callable']
 OUT = [None, True, False, 0, '', 'no', {'e': 1}, [1], 'raise',
-       1, 1.0, 2, -1, 0.0, [], {}, 'True', 'raise-type']
+       1, 1.0, 2, -1, 0.0, [], {}, 'True', 'raise-type', 'raise-base']
 KIND = ['polling', 'websocket', 'jsonp']
 SRV = ['T', 'A', 'H', 'N']  # H / N: the asyncio server behind the real aiohttp / tornado adapter
 DEFAULT = (25, 20, 10 ** 6, True, None, 'none', None, 'polling')
@@ -175,7 +175,8 @@ def _cell(rec, sim, case, pi, pt, mb, au, tr, cookie_expect, out, okind,
     hsid = connects[0]['sid']
     if not accept:
         rec.count('reject_followups')
-        want_body = out if (out and out not in ('raise', 'raise-type')) \
+        want_body = out if (out and out not in ('raise', 'raise-type',
+                                                'raise-base')) \
             else None
         if okind == 'websocket' and srv == 'A':
             ws = h.ws
